@@ -424,7 +424,8 @@ def family_programs(seed, n=24):
     out = []
     fns = [lambda r: gen.gen_match_program(r, size="small"), lambda r: gen.gen_class_program(r), lambda r: gen.gen_gattr_program(r),
            lambda r: gen.gen_feature_program(r), lambda r: gen.gen_ref_program(r), lambda r: gen.gen_opt_program(r),
-           lambda r: gen.gen_match_program(r, size="small", keyslots=True)]
+           lambda r: gen.gen_match_program(r, size="small", keyslots=True),
+           lambda r: gen.gen_match_program(r, npasses=2, size="small", carets=True)]     # passes without leading contexts, ^ anywhere
     for i in range(n):
         try:
             out.append(fns[i % len(fns)](rng))
